@@ -492,7 +492,7 @@ func runC01(res *hx.Result, rng *hx.Rng, tier string, outdir string) {
 	{
 		// large payloads, and the window just below the limit (a frame-size test that forgets the
 		// header would refuse the last 28 legal lengths)
-		sizes := []int{65535, 65536, 65537, 70000, 1 << 20, int(net.MaxPayloadSize) - 28, int(net.MaxPayloadSize) - 27, int(net.MaxPayloadSize) - 1, int(net.MaxPayloadSize)}
+		sizes := []int{4095, 4096, 4097, 8192, 32768, 65535, 65536, 65537, 70000, 1 << 20, int(net.MaxPayloadSize) - 28, int(net.MaxPayloadSize) - 27, int(net.MaxPayloadSize) - 1, int(net.MaxPayloadSize)}
 		for _, n := range sizes {
 			h := genHeader(rng)
 			p := rng.Bytes(n)
@@ -501,6 +501,11 @@ func runC01(res *hx.Result, rng *hx.Rng, tier string, outdir string) {
 			if err := m.Write(&buf); err != nil {
 				res.Fail("limit", fmt.Sprintf("write of %d-byte payload failed: %v", n, err))
 				continue
+			}
+			// whatever the size: one Write call carrying the whole frame (concurrent senders rely on it)
+			ow := &schedWriter{}
+			if err := m.Write(ow); err != nil || len(ow.calls) != 1 || !bytes.Equal(ow.calls[0], buf.Bytes()) {
+				res.Fail("one-write", fmt.Sprintf("Message.Write of a %d-byte payload issued %d Write calls (err %v)", n, len(ow.calls), err))
 			}
 			sched, _ := genSched(rng, 100000, false)
 			o := runRead(buf.Bytes(), sched)
